@@ -240,7 +240,7 @@ class RefTraj:
         if d["pg"] == "scalar":
             self.pg = float(pv["pg"])
         elif d["pg"] == "mat":
-            self.pg = np.asarray(pv.get("pgm", P.pgm_value()), dtype=float)
+            self.pg = np.asarray(pv.get("pgm", P.pgm_value()), dtype=float).reshape(2, 2)
         self.pc = None
         if d["pc"]:
             self.pc = np.asarray(pv.get("pc", P.pc_table(d)), dtype=float).reshape(-1)
